@@ -192,11 +192,75 @@ fn gen_pc2(r: &mut Rng, lat: bool) -> (String, String) {
     ("pc2".into(), format!("{} {} {} {} {}", d2::hiso(&pos12), f1, f2, d2::hv(&sep), b(r.below(4) == 0)))
 }
 
+/// cuboid / triangle (kind 2) and triangle / cuboid (kind 3) pose histories in the `seq2t` layout, general sizes: a non-degenerate
+/// triangle (lattice vertices or random, incl. thin ones), placed at contact distance along a random direction by the support
+/// functions (corner on face, face on face when an edge is axis-parallel, corner on corner), then the `gen_seq2` step distribution.
+fn gen_seq2m_tri(r: &mut Rng, lat: bool, kind: usize, maxposes: usize) -> (String, String) {
+    let ext = |r: &mut Rng| if lat { *r.pick(&[0.25, 0.5, 1.0, 1.5, 2.0]) } else { r.logu(5e-2, 6.0) };
+    let he = d2::Vector::new(ext(r), ext(r));
+    let tri = loop {
+        let s = ext(r);
+        let (a, b, c) = if lat && r.bool() {
+            // axis-parallel edges (face on face)
+            let w = ext(r); let h = ext(r); (d2::Vector::new(-w, 0.0), d2::Vector::new(w, 0.0), d2::Vector::new(*r.pick(&[-w, 0.0, w]), if r.bool() { h } else { -h }))
+        } else { (d2::gen_v(r, lat, 1.0) * s, d2::gen_v(r, lat, 1.0) * s, d2::gen_v(r, lat, 1.0) * s) };
+        let area = (b - a).perp(&(c - a));
+        if area.abs() > 1e-3 * ((b - a).norm() * (c - a).norm()).max(1e-6) && (b - a).norm() > 1e-2 && (c - b).norm() > 1e-2 && (a - c).norm() > 1e-2 { break [a, b, c]; }
+    };
+    let (re, im) = d2::gen_rot(r, lat); let rot = rot_of(re, im);
+    let dir = unit2(r, lat);
+    let id = d2::na::UnitComplex::identity();
+    let ld = rot.inverse_transform_vector(&-dir);
+    let htri = tri.iter().map(|v| v.dot(&ld)).fold(f64::MIN, f64::max);
+    let scale = (he.norm() + tri.iter().map(|v| v.norm()).fold(0.0, f64::max)).min(4.0).max(0.1);
+    let pred = if lat { *r.pick(&[0.0, 0.25, 0.5]) } else { *r.pick(&[0.0, 1e-3, 0.05, 0.2]) * scale.min(2.0) };
+    let gap = if lat { *r.pick(&[0.0, 0.25, -0.25, -0.125]) } else { match r.below(4) { 0 => r.uniform(-1e-6, 1e-6), 1 => pred + r.uniform(-1e-3, 1e-3), _ => r.uniform(-0.3, 0.2) * he.x.min(he.y) } };
+    let base_ct = d2::Isometry::from_parts(d2::na::Translation2::from(dir * (supp(&he, &id, &dir) + htri + gap)), rot);   // triangle in the cuboid's frame
+    let n = 1 + r.below(maxposes as u64) as usize;
+    let mut cur = base_ct;
+    let mut s = format!("{} {} {} {} {}", kind, d2::hv(&he), tri.iter().map(|v| d2::hv(v)).collect::<Vec<_>>().join(" "), hx(pred), n);
+    for i in 0..n {
+        if i > 0 {
+            let k = r.below(20);
+            if lat {
+                if k < 11 { cur.translation.vector += d2::gen_v(r, true, 1.0) * 0.03125; }
+                else if k < 14 { cur.translation.vector += d2::gen_v(r, true, 1.0) * 0.25; let (re, im) = d2::gen_rot(r, true); cur.rotation = rot_of(re, im); }
+                else if k < 16 { cur.translation.vector += unit2(r, true) * (64.0 * scale); }
+                else if k < 19 { cur = base_ct; cur.translation.vector += d2::gen_v(r, true, 1.0) * 0.0625; }
+            } else {
+                if k < 11 { let st = r.logu(1e-5, 3e-2) * scale; cur.translation.vector += d2::Vector::new(r.uniform(-1.0, 1.0), r.uniform(-1.0, 1.0)) * st;
+                    cur.rotation = d2::na::UnitComplex::new(r.uniform(-0.02, 0.02)) * cur.rotation; }
+                else if k < 14 { cur.translation.vector += d2::Vector::new(r.uniform(-1.0, 1.0), r.uniform(-1.0, 1.0)) * (0.3 * scale);
+                    cur.rotation = d2::na::UnitComplex::new(r.uniform(-1.0, 1.0)) * cur.rotation; }
+                else if k < 16 { cur.translation.vector += unit2(r, false) * (r.uniform(5.0, 50.0) * scale); }
+                else if k < 19 { cur = base_ct; cur.translation.vector += d2::Vector::new(r.uniform(-1.0, 1.0), r.uniform(-1.0, 1.0)) * (0.02 * scale); }
+            }
+        }
+        let p12 = if kind % 2 == 0 { cur } else { cur.inverse() };
+        s += " "; s += &d2::hiso(&p12);
+    }
+    ("seq2m".into(), s)
+}
+
 pub fn gen(r: &mut Rng, thorough: bool) -> Vec<(String, String)> {
     let k = if thorough { 10 } else { 1 };
     let mut v = Vec::new();
     for it in 0..1200 * k { v.extend(gen_cuc2(r, it % 2 == 0, (it / 2) % 4)); }
     for it in 0..160 * k { v.push(gen_seq2_cuc(r, it % 2 == 0, (it / 2) % 4, 20)); }
     for it in 0..600 * k { v.push(gen_pc2(r, it % 2 == 0)); }
+    // the millimetre-sized cuboid tilting on a unit cuboid (`seq2t` kinds 0/1: the warm-start ANGLE clause inside the real
+    // dispatcher), replayed as `seq2` kind 6 so that it also runs through the model
+    for _ in 0..40 * k { for kind in 0..2 {
+        let (_, args) = gen_seq2t(r, kind, 16);
+        let t: Vec<&str> = args.split_whitespace().collect();
+        let (hb, tiny) = (t[1..3].join(" "), t[3..5].join(" "));
+        let (a, b) = if kind == 0 { (hb, tiny) } else { (tiny, hb) };
+        v.push(("seq2".into(), format!("6 {} {} {}", a, b, t[9..].join(" "))));
+    } }
+    // cuboid/triangle, both orders: the millimetre-sized triangles of `seq2t` and general sizes, through the model
+    for it in 0..40 * k { for kind in 2..4 {
+        let (_, args) = gen_seq2t(r, kind, 16); v.push(("seq2m".into(), args));
+        for j in 0..3 { v.push(gen_seq2m_tri(r, (it + j) % 2 == 0, kind, 16)); }
+    } }
     v
 }
